@@ -21,6 +21,9 @@ ASSUMPTIONS = ["BlockValue.size_exponent <= 7 for block values in the handler st
 
 
 def check(env, rep, tier):
+    include(rep, env, tier, "c12", ("C12.2",), "C09.7",
+            "'blocks of one upload are collected in one buffer': the per-transfer key is exactly (endpoint, method, path) - nothing that "
+            "differs between the blocks of one upload (token, message id) is part of it")
     configs = ["default"] if tier == "quick" else ["default", "udp"]
     rep.configs = configs
     for cfg in configs:
